@@ -138,10 +138,26 @@ _BIN = {
 _BUILTINS = {
     "len": len, "max": max, "min": min, "int": int, "float": float, "str": str, "abs": abs,
     "bool": bool, "list": list, "tuple": tuple, "sorted": sorted, "range": range,
-    "enumerate": lambda *a: list(enumerate(*a)), "zip": lambda *a: list(zip(*a)), "round": round,
+    "enumerate": lambda *a: (enumerate(*a) if _lazy(a[0]) else list(enumerate(*a))), "zip": lambda *a: (zip(*a) if any(_lazy(x) for x in a) else list(zip(*a))), "round": round,
     "isinstance": None, "reversed": lambda a: list(reversed(a)), "sum": sum, "any": any, "all": all,
-    "dict": dict, "set": set,
+    "dict": dict, "set": set, "next": next, "iter": iter,
 }
+
+
+def _lazy(v):
+    """a lazily evaluated sequence of the interpreted program (generator expression, generator helper, or an iterator over one)"""
+    import types as _types
+    return isinstance(v, (GenV, _types.GeneratorType, enumerate, zip)) or type(v).__name__ in ("list_iterator", "tuple_iterator", "islice", "chain")
+
+
+def _pure_callables():
+    import collections as _c
+    import functools as _f
+    import itertools as _i
+    return {"reduce": _f.reduce, "functools.reduce": _f.reduce, "deque": _c.deque, "collections.deque": _c.deque,
+            "itertools.chain": _i.chain, "chain": _i.chain, "itertools.islice": _i.islice, "islice": _i.islice}
+
+_PURE = _pure_callables()
 
 DEFAULT_IGNORE = ("logger.", "logging.", "time.", "print", "warnings.")
 
@@ -165,6 +181,8 @@ class Interp:
         self.auto_private = auto_private
         self._stack = []
         self._fi_stack = []
+        self._cur_gen = None
+        self._live_gens = []
         self.max_steps = int(os.environ.get("VERIF_MAX_STEPS", "1000000"))
         self.steps = 0
         self.max_loop = max_loop
@@ -255,8 +273,16 @@ class Interp:
             self.path.result = ("return", v)
         except Raised as r:
             self.path.result = ("raise", r.typ)
+        finally:
+            self._close_gens()
         self.path.final_store = self.store
         return self.path
+
+    def _close_gens(self):
+        for g in self._live_gens:
+            g.close()
+        self._live_gens = []
+        self._cur_gen = None
 
     def choose(self, key, domain, memo=True):
         if memo and key in self._memo:
@@ -391,7 +417,7 @@ class Interp:
             if isinstance(it, dict):
                 it = list(it.keys())
             broke = False
-            for n, item in enumerate(list(it)):
+            for n, item in enumerate(it if _lazy(it) else list(it)):
                 if n > self.max_loop:
                     raise Undecidable("loop bound exceeded")
                 self.assign(st.target, item, frame)
@@ -949,28 +975,55 @@ class Interp:
 
     def e_Yield(self, e, frame):
         v = self.eval(e.value, frame) if e.value is not None else None
+        if self._cur_gen is not None:
+            self._cur_gen.yield_(v)   # inside a generator helper: hand the value to the consumer and wait
+            return None
         self.path.trace.append(("yield", "yield", v))
         return None
 
     def e_Lambda(self, e, frame):
         return _Closure(e, frame, self)
 
+    def _comp(self, gens, frame, first=None):
+        """the frames a comprehension's clauses produce, lazily, left to right"""
+        g = gens[0]
+        it = first if first is not None else self.eval(g.iter, frame)
+        if isinstance(it, Residual):
+            raise Undecidable(f"comprehension over unknown iterable {it.text}")
+        if isinstance(it, dict):
+            it = list(it.keys())
+        for n, item in enumerate(it if _lazy(it) else list(it)):
+            if n > self.max_loop * 64:
+                raise Undecidable("comprehension bound exceeded")
+            self.assign(g.target, item, frame)
+            if all(self.truth(self.eval(c, frame)) for c in g.ifs):
+                if len(gens) > 1:
+                    yield from self._comp(gens[1:], frame)
+                else:
+                    yield frame
+
     def e_ListComp(self, e, frame):
-        if len(e.generators) != 1:
-            raise Undecidable(f"nested comprehension {unparse(e)}")
-        g = e.generators[0]
-        it = self.eval(g.iter, frame)
+        it = self.eval(e.generators[0].iter, frame)
         if isinstance(it, Residual):
             return Residual(unparse(e))
-        out = []
-        inner = dict(frame)
-        for item in list(it):
-            self.assign(g.target, item, inner)
-            if all(self.truth(self.eval(c, inner)) for c in g.ifs):
-                out.append(self.eval(e.elt, inner))
-        return out
+        return [self.eval(e.elt, fr) for fr in self._comp(e.generators, dict(frame), it)]
 
-    e_GeneratorExp = e_ListComp
+    def e_GeneratorExp(self, e, frame):
+        # the first iterable is evaluated now, everything else when the consumer asks (Python's own rule)
+        it = self.eval(e.generators[0].iter, frame)
+        if isinstance(it, Residual):
+            return Residual(unparse(e))
+        fis = list(self._fi_stack)
+
+        def gen():
+            for fr in self._comp(e.generators, dict(frame), it):
+                outer, self._fi_stack = self._fi_stack, (fis if not self._fi_stack else self._fi_stack)
+                try:
+                    v = self.eval(e.elt, fr)
+                finally:
+                    self._fi_stack = outer
+                yield v
+        return gen()
 
     def e_SetComp(self, e, frame):
         out = []
@@ -983,21 +1036,15 @@ class Interp:
         return out
 
     def e_DictComp(self, e, frame):
-        if len(e.generators) != 1:
-            raise Undecidable(f"nested comprehension {unparse(e)}")
-        g = e.generators[0]
-        it = self.eval(g.iter, frame)
+        it = self.eval(e.generators[0].iter, frame)
         if isinstance(it, Residual):
             return Residual(unparse(e))
         out = {}
-        inner = dict(frame)
-        for item in list(it):
-            self.assign(g.target, item, inner)
-            if all(self.truth(self.eval(c, inner)) for c in g.ifs):
-                k = self.eval(e.key, inner)
-                if isinstance(k, (Residual, Obj, list, dict)):
-                    raise Undecidable(f"symbolic key in {unparse(e)}")
-                out[k] = self.eval(e.value, inner)
+        for fr in self._comp(e.generators, dict(frame), it):
+            k = self.eval(e.key, fr)
+            if isinstance(k, (Residual, Obj, list, dict)) and not self._enum_member(k):
+                raise Undecidable(f"symbolic key in {unparse(e)}")
+            out[k] = self.eval(e.value, fr)
         return out
 
     def e_Call(self, e, frame):
@@ -1134,11 +1181,16 @@ class Interp:
         # commonest refactoring; whatever the rule says about the caller must hold with the callee's code in place.)
         if self.auto_private and recv is not None and isinstance(recv, Residual) and meth.startswith("_") and not meth.startswith("__"):
             cls = self.types.get(recv.text)
+            if cls is None and self.idx is not None and self.idx.has_cls(recv.text) and len(self.idx.classes[recv.text]) == 1:
+                cls = recv.text   # a static or class method called on the class itself
             if cls and self.idx is not None and self.idx.has_cls(cls) and self.idx.has_method(cls, meth) and len(self._stack) < 12:
                 fi = self.idx.method(cls, meth)
-                if fi.name == meth and not any(isinstance(n, (ast.Yield, ast.YieldFrom)) for n in ast.walk(fi.node)):
+                if fi.name == meth:
                     a = dict(kwargs)
                     a["__pos__"] = args
+                    if any(isinstance(n, (ast.Yield, ast.YieldFrom)) for n in ast.walk(fi.node)):
+                        # a generator helper: nothing runs now; the body runs in step with whoever consumes it
+                        return GenV(self, lambda fi=fi, a=a, k=recv.text: self.call_function(fi, a, k))
                     self._stack.append(meth)
                     try:
                         return self.call_function(fi, a, recv.text)
@@ -1207,7 +1259,26 @@ class Interp:
             sv = self.str_of(args[0])
             if not isinstance(sv, Obj):
                 return sv
+        if ckey in _PURE and (recv is None or (isinstance(recv, Residual) and recv.text in ("functools", "collections", "itertools"))) and meth not in frame:
+            if not any(isinstance(a, (Residual, Obj)) for a in args):
+                try:
+                    return _PURE[ckey](*args, **kwargs)
+                except (Raised, Undecidable):
+                    raise
+                except Exception as ex:  # pylint: disable=W0718
+                    raise Raised(type(ex).__name__)
+        if recv is None and meth in ("any", "all") and len(args) == 1 and _lazy(args[0]) and meth not in frame:
+            # short-circuit over a lazy sequence, element by element, as Python does
+            for v in args[0]:
+                t = self.truth(v)
+                if t and meth == "any":
+                    return True
+                if not t and meth == "all":
+                    return False
+            return meth == "all"
         if recv is None and meth in _BUILTINS and meth not in frame:
+            if meth not in ("next", "iter", "enumerate", "zip", "isinstance"):
+                args = [list(a) if _lazy(a) else a for a in args]
             if meth == "isinstance":
                 bt = {"list": list, "int": int, "str": str, "dict": dict, "tuple": tuple, "float": float, "bool": bool}
                 if len(args) == 2 and isinstance(args[0], Obj):
@@ -1323,6 +1394,80 @@ class _MethodRef:
 
     def __repr__(self):
         return f"<method {self.fi.qual}>"
+
+
+class _GenKill(BaseException):
+    pass
+
+
+class GenV:
+    """a generator of the interpreted program (a generator helper called from interpreted code): its body runs lazily, in step with
+    the consumer, exactly as in Python (a thread with strict hand-off serves as the coroutine)."""
+
+    def __init__(self, interp, run):
+        import threading
+        self.interp, self.run = interp, run
+        self.started = self.done = self.kill = False
+        self.to_gen, self.to_con = threading.Semaphore(0), threading.Semaphore(0)
+        self.value = self.exc = None
+        self.fi_stack, self.stack = list(interp._fi_stack), list(interp._stack)
+        interp._live_gens.append(self)
+
+    def __iter__(self):
+        return self
+
+    def __next__(self):
+        import threading
+        if self.done:
+            raise StopIteration
+        it = self.interp
+        outer = (it._fi_stack, it._stack, it._cur_gen)
+        it._fi_stack, it._stack, it._cur_gen = self.fi_stack, self.stack, self
+        if not self.started:
+            self.started = True
+            threading.stack_size(256 * 1024 * 1024)
+            self.thread = threading.Thread(target=self._body, daemon=True)
+            self.thread.start()
+        else:
+            self.to_gen.release()
+        self.to_con.acquire()
+        self.fi_stack, self.stack = it._fi_stack, it._stack
+        it._fi_stack, it._stack, it._cur_gen = outer
+        if self.exc is not None:
+            ex, self.exc = self.exc, None
+            raise ex
+        if self.done:
+            raise StopIteration
+        return self.value
+
+    def _body(self):
+        import sys
+        sys.setrecursionlimit(max(sys.getrecursionlimit(), 20000))
+        try:
+            self.run()
+        except _GenKill:
+            pass
+        except BaseException as ex:  # pylint: disable=W0718
+            self.exc = ex
+        self.done = True
+        self.to_con.release()
+
+    def yield_(self, v):
+        self.value = v
+        self.to_con.release()
+        self.to_gen.acquire()
+        if self.kill:
+            raise _GenKill()
+
+    def close(self):
+        if self.started and not self.done:
+            self.kill = True
+            self.to_gen.release()
+            self.to_con.acquire()
+        self.done = True
+
+    def __deepcopy__(self, memo):
+        return self
 
 
 class NTV(tuple):
